@@ -190,7 +190,7 @@ func nickRun(e *Env) {
 		}
 		for k := 0; k < n433; k++ {
 			e.S.Count("fault.nick-collision-before-welcome")
-			l.SendLine(":irc.sim 433 * " + pending + " :Nickname is already in use.")
+			l.SendLine(":irc.sim 433 * " + pending + []string{" :Nickname is already in use.", " :Nickname is already in use.", "", " :", " in-use"}[g.S.Choose(5)])
 			p, ok := expectNick(pending, "during registration")
 			if !ok {
 				return
@@ -330,7 +330,7 @@ func nickRun(e *Env) {
 					break // the generator led back to the client's own nick: a no-op for the server
 				}
 				e.S.Count("fault.nick-refused-after-welcome")
-				l.SendLine(":irc.sim 433 " + serverNick + " " + cur + " :Nickname is already in use.")
+				l.SendLine(":irc.sim 433 " + serverNick + " " + cur + []string{" :Nickname is already in use.", " :Nickname is already in use.", "", " :", " in-use"}[g.S.Choose(5)])
 				p, ok := expectNick(cur, where+" (client NICK refused)")
 				if !ok {
 					return
@@ -870,6 +870,11 @@ func capRun(e *Env) {
 		}
 	}
 	saslKind := g.W(4, 3, 2) // none, PLAIN, EXTERNAL
+	if saslKind == 0 && g.Pct(25) {
+		// sasl listed as an ordinary wanted capability, no SASL client configured:
+		// an ACK containing it starts nothing
+		wanted = append(wanted, "sasl")
+	}
 	var saslAdvertised, laterDisable bool
 	var outcome string
 	var reply int
@@ -1218,6 +1223,10 @@ func logRun(e *Env) {
 	nonce := g.Str(alnum, 8, 8)
 	printable := " !\"#$%&'()*+,-./0123456789:;<=>?@ABCXYZ[\\]^_`abcxyz{|}~"
 	pw := g.Str(printable, 0, 20) + nonce + g.Str(printable, 0, 30)
+	if g.Pct(12) {
+		// "any length": the PASS line itself exceeds the protocol's 512 bytes
+		pw += g.Str(printable, 440, 640)
+	}
 	pw = strings.TrimLeft(pw, " :")
 	if g.Pct(10) {
 		pw = "PASS " + pw
